@@ -7,4 +7,9 @@ export PYTHONPATH="$PWD${PYTHONPATH:+:$PYTHONPATH}"
 PY=/venv/bin/python
 # C07: x86-64 single-instruction stepper (vf/x86step.c, gcc)
 $PY -c "from vf import x86step; print('prebuilt', x86step.build())" || exit 1
+# C07: self-check of the ARM A32 emulator (vf/arm32.py; clang, gcc, llvm-mc), cached result; a failure only makes C07 skip ARM
+$PY -c "from vf import arm32; r = arm32.selfcheck('quick'); print('arm32 selfcheck ok=%s cached=%s' % (r.get('ok'), r.get('cached')))"
+# C01 C02 C24 C38: self-check of the reference IR interpreter (vf/irsem.py against gcc and hand-built modules), cached result;
+# non-fatal here: the checks run it themselves and report a disagreement as a harness error
+$PY -c "from vf import irsem_selfcheck as s; r = s.selfcheck('quick'); print('irsem selfcheck ok=%s cached=%s seconds=%s' % (r.get('ok'), r.get('cached'), r.get('seconds')))" || echo "irsem selfcheck did not pass (non-fatal here)"
 exit 0
